@@ -700,6 +700,9 @@ def validate_composability(nodes, constants):
 
 def evaluate_model(nodes, warn_emitter=lambda x: None):
     topological_sort(nodes)
+    for node in nodes:
+        if type(node) is Typedef and node.type_name == node.name:
+            raise ModelError("Cyclic dependency of definitions involving '%s'." % node.name)
     constants = cross_reference(nodes, warn_emitter)
     evaluate_stiffness_kinds(nodes)
     validate_composability(nodes, constants)
